@@ -245,6 +245,9 @@ Definition fl_C17 := {| f_val := true; f_exn := true; f_field := true; f_allowed
 Definition verdict_C17 := verdict_with fl_C17.
 Definition verdict_C17_any (c : case + nat) : nat :=
   match c with inl k => verdict_C17 k | inr 1 => 0 | inr _ => 2 end.
+(* C16: A's whole trace *)
+Definition verdict_C16_any (c : case + nat) : nat :=
+  match c with inl k => verdict_with fl_C17 k | inr 1 => 0 | inr _ => 2 end.
 Definition verdict_all := verdict_with fl_all.
 Definition verdict_C01 := verdict_with fl_C01.
 Definition verdict_C02 := verdict_with fl_C02.
